@@ -7,36 +7,60 @@ import (
 )
 
 // ReplaceTable returns a Rule that replaces a table name everywhere it appears
-// (FROM, JOIN, WHERE column qualifiers) in a SELECT, UPDATE, or DELETE statement.
+// (FROM, JOIN, column qualifiers in any clause, at any sub-query, derived-table
+// or CTE depth) in a SELECT, UPDATE, or DELETE statement.
 func ReplaceTable(oldName, newName string) Rule {
 	return RuleFunc(func(stmt ast.Statement) error {
-		switch s := stmt.(type) {
-		case *ast.SelectStatement:
-			replaceTableInFrom(s.From, oldName, newName)
-			replaceTableInJoins(s.Joins, oldName, newName)
-			for i, col := range s.Columns {
-				s.Columns[i] = replaceTableInExpr(col, oldName, newName)
-			}
-			s.Where = replaceTableInExpr(s.Where, oldName, newName)
-			for i, ob := range s.OrderBy {
-				s.OrderBy[i].Expression = replaceTableInExpr(ob.Expression, oldName, newName)
-			}
-			return nil
-		case *ast.UpdateStatement:
-			if strings.EqualFold(s.TableName, oldName) {
-				s.TableName = newName
-			}
-			s.Where = replaceTableInExpr(s.Where, oldName, newName)
-			return nil
-		case *ast.DeleteStatement:
-			if strings.EqualFold(s.TableName, oldName) {
-				s.TableName = newName
-			}
-			s.Where = replaceTableInExpr(s.Where, oldName, newName)
+		switch stmt.(type) {
+		case *ast.SelectStatement, *ast.UpdateStatement, *ast.DeleteStatement:
+			replaceTableInTree(stmt, oldName, newName)
 			return nil
 		default:
 			return &ErrUnsupportedStatement{Transform: "ReplaceTable", Got: stmtTypeName(stmt)}
 		}
+	})
+}
+
+// replaceTableInTree renames the table in every node of the tree. The traversal is the
+// tree's own (ast.Inspect), so a name cannot be missed because of the clause or the
+// nesting it sits in. Table references are stored by value in their statement, so they
+// are renamed when the statement that holds them is visited.
+func replaceTableInTree(root ast.Node, old, new string) {
+	rename := func(name *string) {
+		if strings.EqualFold(*name, old) {
+			*name = new
+		}
+	}
+	ast.Inspect(root, func(n ast.Node) bool {
+		switch x := n.(type) {
+		case *ast.SelectStatement:
+			rename(&x.TableName)
+			for i := range x.From {
+				rename(&x.From[i].Name)
+			}
+			for i := range x.Joins {
+				rename(&x.Joins[i].Left.Name)
+				rename(&x.Joins[i].Right.Name)
+			}
+		case *ast.UpdateStatement:
+			rename(&x.TableName)
+			for i := range x.From {
+				rename(&x.From[i].Name)
+			}
+		case *ast.DeleteStatement:
+			rename(&x.TableName)
+			for i := range x.Using {
+				rename(&x.Using[i].Name)
+			}
+		case *ast.InsertStatement:
+			rename(&x.TableName)
+		case *ast.MergeStatement:
+			rename(&x.TargetTable.Name)
+			rename(&x.SourceTable.Name)
+		case *ast.Identifier:
+			rename(&x.Table)
+		}
+		return true
 	})
 }
 
@@ -83,26 +107,6 @@ func QualifyColumns(tableName string) Rule {
 		}
 		return nil
 	})
-}
-
-func replaceTableInFrom(from []ast.TableReference, old, new string) {
-	for i := range from {
-		if strings.EqualFold(from[i].Name, old) {
-			from[i].Name = new
-		}
-	}
-}
-
-func replaceTableInJoins(joins []ast.JoinClause, old, new string) {
-	for i := range joins {
-		if strings.EqualFold(joins[i].Right.Name, old) {
-			joins[i].Right.Name = new
-		}
-		if strings.EqualFold(joins[i].Left.Name, old) {
-			joins[i].Left.Name = new
-		}
-		joins[i].Condition = replaceTableInExpr(joins[i].Condition, old, new)
-	}
 }
 
 // walkExpr recursively walks all expression types and applies fn to each expression.
@@ -220,65 +224,6 @@ func walkStmtExprs(stmt ast.Statement, fn func(ast.Expression) ast.Expression) {
 	for i := range sel.Joins {
 		sel.Joins[i].Condition = walkExpr(sel.Joins[i].Condition, fn)
 	}
-}
-
-// replaceTableInStmt recursively replaces table names in all parts of a statement,
-// including FROM, JOINs, and all expressions (with subquery recursion).
-func replaceTableInStmt(stmt ast.Statement, old, new string) {
-	sel, ok := stmt.(*ast.SelectStatement)
-	if !ok || sel == nil {
-		return
-	}
-	replaceTableInFrom(sel.From, old, new)
-	replaceTableInJoins(sel.Joins, old, new)
-	for i := range sel.Columns {
-		sel.Columns[i] = replaceTableInExpr(sel.Columns[i], old, new)
-	}
-	sel.Where = replaceTableInExpr(sel.Where, old, new)
-	for i := range sel.OrderBy {
-		sel.OrderBy[i].Expression = replaceTableInExpr(sel.OrderBy[i].Expression, old, new)
-	}
-}
-
-func replaceTableInExpr(expr ast.Expression, old, new string) ast.Expression {
-	if expr == nil {
-		return nil
-	}
-	// For subquery-containing expressions, recurse into the full statement
-	// so that FROM/JOIN table names are also replaced.
-	switch e := expr.(type) {
-	case *ast.SubqueryExpression:
-		replaceTableInStmt(e.Subquery, old, new)
-		return e
-	case *ast.ExistsExpression:
-		replaceTableInStmt(e.Subquery, old, new)
-		return e
-	case *ast.InExpression:
-		e.Expr = replaceTableInExpr(e.Expr, old, new)
-		for i := range e.List {
-			e.List[i] = replaceTableInExpr(e.List[i], old, new)
-		}
-		if e.Subquery != nil {
-			replaceTableInStmt(e.Subquery, old, new)
-		}
-		return e
-	case *ast.AnyExpression:
-		e.Expr = replaceTableInExpr(e.Expr, old, new)
-		replaceTableInStmt(e.Subquery, old, new)
-		return e
-	case *ast.AllExpression:
-		e.Expr = replaceTableInExpr(e.Expr, old, new)
-		replaceTableInStmt(e.Subquery, old, new)
-		return e
-	}
-	return walkExpr(expr, func(e ast.Expression) ast.Expression {
-		if id, ok := e.(*ast.Identifier); ok {
-			if strings.EqualFold(id.Table, old) {
-				id.Table = new
-			}
-		}
-		return e
-	})
 }
 
 func qualifyExpr(expr ast.Expression, table string) ast.Expression {
